@@ -6,6 +6,7 @@ import numpy as np
 import common
 import gen
 import refsym
+import replaylib as rl
 
 IMPORTS = 'From SV Require Import Base.Sym Base.Tensor Model.SymInst Model.Sectors Model.Array Model.Arith.\n'
 SYMS = ['Z2', 'U1', 'Z2Z2', 'U1U1', 'Z4']
@@ -82,9 +83,11 @@ def run(ctx):
                 return outs, {'error': 'entry point %s returns something else than %s' % (how, outs[0][0])}
         return outs, None
 
-    def record(op, x_desc, bad, **kw):
+    def record(op, x_desc, bad, _inputs=None, **kw):
         if bad is not None:
-            found.append({'op': op, **x_desc, **kw, **bad})
+            # `replay`: complete, re-executable description (x is the array of the current case)
+            found.append({'op': op, **x_desc, **kw, **bad,
+                          'replay': rl.record(op, {'x': x, **(_inputs or {})}, {'symmetry': x_desc.get('symmetry'), **kw})})
 
     def dense_cmp(got_arr, want, indices=None):
         try:
@@ -170,7 +173,7 @@ def run(ctx):
                                      ('mul', lambda: x * y, dx * dy, 'Some (a_mul %s %s %s)' % (A, X, Y))):
             try:
                 r = f()
-                record(name, {**xd, 'y': describe(y)}, dense_cmp(r, want))
+                record(name, {**xd, 'y': describe(y)}, dense_cmp(r, want), _inputs={'y': y})
                 add_case(name, model, r)
             except Exception as e:
                 raised[name] = raised.get(name, 0) + 1
@@ -182,9 +185,9 @@ def run(ctx):
         # in-place variants
         try:
             z = x.copy(); z += y
-            record('iadd', {**xd, 'y': describe(y)}, dense_cmp(z, dx + dy)); ctx.count()
+            record('iadd', {**xd, 'y': describe(y)}, dense_cmp(z, dx + dy), _inputs={'y': y}); ctx.count()
             z = x.copy(); z *= y
-            record('imul', {**xd, 'y': describe(y)}, dense_cmp(z, dx * dy)); ctx.count()
+            record('imul', {**xd, 'y': describe(y)}, dense_cmp(z, dx * dy), _inputs={'y': y}); ctx.count()
         except Exception:
             raised['inplace'] = raised.get('inplace', 0) + 1
         # ---- sum / norm
@@ -220,7 +223,7 @@ def run(ctx):
                 add_case('multiply_diagonal', 'Some (a_multiply_diagonal %s %s %s %s)' % (A, X, gvec(v, ring), '%d%%nat' % axis), r, 'axis %d' % axis)
             if len(vb) < len(tab):
                 ctx.nontrivial(('mdiag', sym, str(sorted(x.blocks)), str(sorted(vb)), axis))
-        record('multiply_diagonal', {**xd, 'v': describe(v), 'axis': axis}, bad)
+        record('multiply_diagonal', {**xd, 'v': describe(v)}, bad, _inputs={'v': v}, axis=axis)
         # ---- expand_dims / squeeze
         ax = rng.randint(0, nd)
         outs, bad = three_ways('expand_dims', [('method', lambda: x.expand_dims(ax)), ('symmray', lambda: sr.expand_dims(x, ax)),
@@ -259,7 +262,8 @@ def run(ctx):
                 continue
             got = vec_dense(r, tab2)
             if not np.array_equal(got, want):
-                found.append({'op': name, **vdesc, 'got': got.tolist(), 'expected': want.tolist()})
+                found.append({'op': name, **vdesc, 'got': got.tolist(), 'expected': want.tolist(),
+                              'replay': rl.record('vec_arith', {'v1': v1, 'v2': v2}, {'symmetry': sym, 'op': name, 'table': tab2})})
         rv = gen.ring_of(v1, v2)
         if v1.blocks or v2.blocks:
             r = v1 + v2
@@ -282,14 +286,16 @@ def run(ctx):
                     if not np.allclose(got, want, rtol=1e-12, atol=0):
                         bad = {'got': got.tolist(), 'expected': want.tolist()}
                 if bad:
-                    found.append({'op': 'vec.' + name, **vdesc, **bad})
+                    found.append({'op': 'vec.' + name, **vdesc, **bad,
+                                  'replay': rl.record('vec_fn', {'v1': v1, 'v2': v2}, {'symmetry': sym, 'op': name, 'complex': cplx})})
             if not cplx:
                 for name, want in (('max', dd.real.max()), ('min', dd.real.min()), ('sum', dd.real.sum())):
                     ctx.count()
                     try:
                         g1 = getattr(v1, name)(); g2 = getattr(sr, name)(v1); g3 = ar.do(name, v1)
                         if not (float(g1) == float(g2) == float(g3) == float(want)):
-                            found.append({'op': 'vec.' + name, **vdesc, 'got': [float(g1), float(g2), float(g3)], 'expected': float(want)})
+                            found.append({'op': 'vec.' + name, **vdesc, 'got': [float(g1), float(g2), float(g3)], 'expected': float(want),
+                                          'replay': rl.record('vec_reduce', {'v1': v1, 'v2': v2}, {'symmetry': sym, 'op': name})})
                     except Exception:
                         raised['vec.' + name] = raised.get('vec.' + name, 0) + 1
     # log / log2 / log10: must raise or be right (they recurse -> RecursionError = raises)
@@ -299,7 +305,8 @@ def run(ctx):
             r = getattr(sr, fn)(v)
             want = getattr(np, fn)(np.array([1.0, 2.0]))
             if not np.allclose(np.asarray(r.blocks[0]), want):
-                found.append({'op': fn, 'got': np.asarray(r.blocks[0]).tolist(), 'expected': want.tolist()})
+                found.append({'op': fn, 'got': np.asarray(r.blocks[0]).tolist(), 'expected': want.tolist(),
+                              'replay': rl.record('vec_log', {}, {'op': fn})})
         except (RecursionError, AttributeError):
             raised[fn] = raised.get(fn, 0) + 1
 
@@ -313,10 +320,11 @@ def run(ctx):
         tie_broken += ['Model.%s disagrees with the implementation (symmetry %s, case %d %s)' % meta[i] for i in bad_idx[:10]]
         ctx.extra['disagreeing_cases'] = [exprs[i][:2500] for i in bad_idx[:3]]
     for f in found[:5]:
-        ctx.violation('%s differs from the dense operation' % f['op'], {'oracle': 'numpy on own dense embedding / entry-point agreement', **f})
+        ctx.violation('%s differs from the dense operation' % f['op'], {'oracle': 'numpy on own dense embedding / entry-point agreement', **f, 'run': rl.run_info(ctx)})
     ctx.broken += tie_broken
     if (not ok or tie_broken) and not found:
-        ctx.violation('proof obligation or tie of C08 no longer checks', {'broken': ctx.broken}, found_input=False)
+        ctx.violation('proof obligation or tie of C08 no longer checks',
+                      {'broken': ctx.broken, 'replay': rl.record('proof_phase')}, found_input=False)
     ctx.extra['ops_compared_with_model'] = opcount
     ctx.extra['operations_that_raised'] = raised
     ctx.coverage['rule'] = ('random abelian arrays (rank 1-4, five symmetries, random dualness/charge/sparsity, real + Gaussian-integer data) and a '
@@ -326,7 +334,207 @@ def run(ctx):
                             'distinct by (symmetry, sector sets)')
 
 
+# ------------------------------------------------------------------ replay
+def _three_ways(calls):
+    """as in run(): method / symmray function / autoray dispatch must agree exactly (or all raise)"""
+    outs = []
+    for how, f in calls:
+        try:
+            outs.append((how, f(), None))
+        except RecursionError:
+            outs.append((how, None, 'RecursionError'))
+        except Exception as e:
+            outs.append((how, None, type(e).__name__))
+    errs = [e for _, _, e in outs]
+    if any(errs):
+        if not all(errs):
+            return outs, {'error': 'entry points disagree: %r' % [(h, e) for h, _, e in outs]}
+        return outs, None
+    for how, res, _ in outs[1:]:
+        if not same_array(outs[0][1], res):
+            return outs, {'error': 'entry point %s returns something else than %s' % (how, outs[0][0])}
+    return outs, None
+
+
+def _dense_cmp(got_arr, want, indices=None):
+    try:
+        got = gen.densify(got_arr, indices=indices)
+    except (KeyError, ValueError) as e:
+        return {'error': str(e)}
+    if got.shape != want.shape or not np.array_equal(got, want):
+        return {'got_dense': got.tolist() if got.size < 300 else 'large', 'expected_dense': want.tolist() if want.size < 300 else 'large'}
+    return None
+
+
+def _rp_array_op(op):
+    def f(sr, ins, pr, r):
+        import autoray as ar
+        x = ins['x']
+        sym = pr.get('symmetry')
+        dx = gen.densify(x)
+        nd = x.ndim
+        bad = None
+        if op == 'transpose':
+            perm = pr['perm']
+            outs, bad = _three_ways([('method', lambda: x.transpose(tuple(perm))), ('symmray', lambda: sr.transpose(x, tuple(perm))),
+                                     ('autoray', lambda: ar.do('transpose', x, tuple(perm)))])
+            if bad is None and outs[0][2] is None:
+                bad = _dense_cmp(outs[0][1], np.transpose(dx, perm))
+        elif op == 'conj':
+            outs, bad = _three_ways([('method', lambda: x.conj()), ('symmray', lambda: sr.conj(x)), ('autoray', lambda: ar.do('conj', x))])
+            if bad is None and outs[0][2] is None:
+                c = outs[0][1]
+                bad = _dense_cmp(c, np.conj(dx))
+                if bad is None and (c.charge != refsym.neg(sym, x.charge) or [i.dual for i in c.indices] != [not i.dual for i in x.indices]):
+                    bad = {'error': 'conj must negate the charge and flip every direction', 'expected': [refsym.neg(sym, x.charge), [not i.dual for i in x.indices]],
+                           'got': [c.charge, [i.dual for i in c.indices]]}
+        elif op == 'dagger':
+            try:
+                d = x.dagger()
+            except Exception:
+                return []       # raising is allowed (counted, not a finding)
+            bad = _dense_cmp(d, np.conj(dx).transpose())
+            if bad is None and not same_array(d, x.H):
+                bad = {'error': '.H differs from dagger()'}
+        elif op in ('scale', 'rscale', 'neg', 'div'):
+            s = pr['scalar']
+            f2, want = {'scale': (lambda: x * s, dx * s), 'rscale': (lambda: s * x, dx * s), 'neg': (lambda: -x, -dx),
+                        'div': (lambda: (x * 4) / 2, dx * 2)}[op]
+            try:
+                res = f2()
+            except Exception:
+                return []
+            bad = _dense_cmp(res, want)
+        elif op in ('add', 'sub', 'mul', 'iadd', 'imul'):
+            y = ins['y']
+            dy = gen.densify(y)
+            try:
+                if op == 'add':
+                    res, want = x + y, dx + dy
+                elif op == 'sub':
+                    res, want = x - y, dx - dy
+                elif op == 'mul':
+                    res, want = x * y, dx * dy
+                elif op == 'iadd':
+                    res = x.copy(); res += y; want = dx + dy
+                else:
+                    res = x.copy(); res *= y; want = dx * dy
+            except Exception:
+                return []
+            bad = _dense_cmp(res, want)
+        elif op in ('sum', 'norm', 'sum/norm'):
+            try:
+                if x.blocks:
+                    sm = x.sum()
+                    if complex(sm) != complex(dx.sum()):
+                        return [{'what': 'x.sum()', 'expected': complex(dx.sum()), 'got': complex(sm)}]
+                    if not same_array(np.asarray(sm), np.asarray(sr.sum(x))) or not same_array(np.asarray(sm), np.asarray(ar.do('sum', x))):
+                        return [{'what': 'sum: entry points disagree'}]
+                    n2 = float(x.norm()) ** 2; w2 = float(np.sum(np.abs(dx) ** 2))
+                    if abs(n2 - w2) > 1e-9 * max(1.0, w2):
+                        return [{'what': 'x.norm()**2', 'expected': w2, 'got': n2}]
+            except Exception as e:
+                return [{'what': 'sum / norm raises', 'expected': 'a number', 'got': '%s: %s' % (type(e).__name__, e)}]
+            return []
+        elif op == 'multiply_diagonal':
+            v, axis = ins['v'], pr['axis']
+            tab = x.indices[axis].chargemap
+            vd = vec_dense(v, sorted(tab.items()))
+            shape = [1] * nd; shape[axis] = -1
+            outs, bad = _three_ways([('method', lambda: x.multiply_diagonal(v, axis)), ('symmray', lambda: sr.multiply_diagonal(x, v, axis)),
+                                     ('autoray', lambda: ar.do('multiply_diagonal', x, v, axis))])
+            if bad is None and outs[0][2] is None:
+                bad = _dense_cmp(outs[0][1], dx * vd.reshape(shape), indices=x.indices)
+        elif op == 'expand_dims/squeeze':
+            ax = pr['axis']
+            outs, bad = _three_ways([('method', lambda: x.expand_dims(ax)), ('symmray', lambda: sr.expand_dims(x, ax)),
+                                     ('autoray', lambda: ar.do('expand_dims', x, ax))])
+            if bad is None and outs[0][2] is None:
+                e = outs[0][1]
+                bad = _dense_cmp(e, np.expand_dims(dx, ax))
+                try:
+                    q = e.squeeze(ax)
+                    bad = bad or (None if same_array(q, x) else {'error': 'squeeze(expand_dims(x)) differs from x'})
+                    if not same_array(q, sr.squeeze(e, ax)):
+                        bad = bad or {'error': 'sr.squeeze differs from method'}
+                except Exception as ex:
+                    bad = bad or {'raised': 'squeeze of a zero-charge singleton: %s' % ex}
+        else:
+            return [{'what': 'unknown operation %r in the replay file' % op}]
+        extra = {k: v for k, v in pr.items() if k != 'symmetry'}
+        return rl.fail_from(bad, '%s%s vs numpy on the dense form / the other entry points' % (op, ' %s' % extra if extra else ''))
+    return f
+
+
+def _rp_vec_arith(sr, ins, pr, r):
+    v1, v2 = ins['v1'], ins['v2']
+    tab2 = [(rl.dec_charge(c), d) for c, d in pr['table']]
+    d1, d2 = vec_dense(v1, tab2), vec_dense(v2, tab2)
+    f, want = {'v+v': (lambda: v1 + v2, d1 + d2), 'v-v': (lambda: v1 - v2, d1 - d2), 'v*v': (lambda: v1 * v2, d1 * d2),
+               'v*s': (lambda: v1 * 3, d1 * 3), 's*v': (lambda: 3 * v1, d1 * 3), '-v': (lambda: -v1, -d1),
+               'v/s': (lambda: (v1 * 4) / 2, d1 * 2)}[pr['op']]
+    try:
+        res = f()
+    except Exception:
+        return []
+    got = vec_dense(res, tab2)
+    if not np.array_equal(got, want):
+        return [{'what': 'block vectors: %s' % pr['op'], 'expected': want.tolist(), 'got': got.tolist()}]
+    return []
+
+
+def _rp_vec_fn(sr, ins, pr, r):
+    import autoray as ar
+    v1, cplx, name = ins['v1'], pr['complex'], pr['op']
+    own = sorted((c, len(b)) for c, b in v1.blocks.items())
+    dd = vec_dense(v1, own)
+    calls, want = {
+        'abs': ([lambda: v1.abs(), lambda: sr.abs(v1), lambda: ar.do('abs', v1)], np.abs(dd)),
+        'sqrt': ([lambda: (v1 * v1).sqrt() if not cplx else v1.sqrt(), lambda: sr.sqrt(v1 * v1) if not cplx else sr.sqrt(v1),
+                  lambda: ar.do('sqrt', v1 * v1) if not cplx else ar.do('sqrt', v1)], np.sqrt(dd * dd) if not cplx else np.sqrt(dd)),
+        'conj': ([lambda: v1.conj() if hasattr(v1, 'conj') else (_ for _ in ()).throw(AttributeError()), ], np.conj(dd))}[name]
+    outs, bad = _three_ways([('w%d' % i, c) for i, c in enumerate(calls)])
+    if bad is None and outs[0][2] is None:
+        got = vec_dense(outs[0][1], own)
+        if not np.allclose(got, want, rtol=1e-12, atol=0):
+            bad = {'got': got.tolist(), 'expected': want.tolist()}
+    return rl.fail_from(bad, 'vec.%s' % name)
+
+
+def _rp_vec_reduce(sr, ins, pr, r):
+    import autoray as ar
+    v1, name = ins['v1'], pr['op']
+    own = sorted((c, len(b)) for c, b in v1.blocks.items())
+    dd = vec_dense(v1, own)
+    want = {'max': dd.real.max, 'min': dd.real.min, 'sum': dd.real.sum}[name]()
+    try:
+        g1 = getattr(v1, name)(); g2 = getattr(sr, name)(v1); g3 = ar.do(name, v1)
+    except Exception:
+        return []
+    if not (float(g1) == float(g2) == float(g3) == float(want)):
+        return [{'what': 'vec.%s through method / symmray / autoray' % name, 'expected': float(want), 'got': [float(g1), float(g2), float(g3)]}]
+    return []
+
+
+def _rp_vec_log(sr, ins, pr, r):
+    fn = pr['op']
+    v = sr.BlockVector({0: np.array([1.0, 2.0])})
+    try:
+        res = getattr(sr, fn)(v)
+        want = getattr(np, fn)(np.array([1.0, 2.0]))
+        if not np.allclose(np.asarray(res.blocks[0]), want):
+            return [{'what': 'symmray.%s of a block vector' % fn, 'expected': want.tolist(), 'got': np.asarray(res.blocks[0]).tolist()}]
+    except (RecursionError, AttributeError):
+        pass
+    return []
+
+
+ORACLES = {op: _rp_array_op(op) for op in ('transpose', 'conj', 'dagger', 'scale', 'rscale', 'neg', 'div', 'add', 'sub', 'mul', 'iadd', 'imul',
+                                           'sum', 'norm', 'sum/norm', 'multiply_diagonal', 'expand_dims/squeeze')}
+ORACLES.update({'vec_arith': _rp_vec_arith, 'vec_fn': _rp_vec_fn, 'vec_reduce': _rp_vec_reduce, 'vec_log': _rp_vec_log})
+
+
 def replay(path):
-    r = json.load(open(path))
-    print(json.dumps(r, indent=1)[:4000])
-    return 0
+    """re-run the recorded failing case against $SYMMRAY_REPO: 1 = still fails, 0 = passes now"""
+    import sys
+    return rl.dispatch(path, 'C08', ORACLES, sys.modules[__name__])
